@@ -764,6 +764,9 @@ class StoreCache(CacheMixin):
                 b, mime = t.as_bytes(state.data)
                 metadata = dict(**state.metadata)
                 metadata["mimetype"] = mime
+                # remove the previous entry first: its metadata names the type that decodes the previous data
+                if self.storage.contains(path):
+                    self.storage.remove(path)
                 self.storage.store(path, b, metadata)
                 return True
             except:
